@@ -170,6 +170,9 @@ def twin(rng, ctx) -> None:
         order.append(k)
         try:
             for f in readers[k].read(chunk_lists[k][idx[k]]):
+                if f is hdlc_mon.POISON:
+                    ctx.violation("C06:returned-list-shared-between-calls", "read() handed back an object that a caller had appended to the list returned by an earlier call", {"twin": True, "cfgs": [list(c) for c in cfgs], "chunks": [list(cl) for cl in chunk_lists], "order": order})
+                    return
                 got[k].append(hdlc_mon.triple(hdlc_mon.observe(f)))
         except Exception:
             ctx.count("read_raised(decided by C14)")
@@ -189,7 +192,8 @@ def replay_twin(case, ctx) -> None:
     idx = [0, 0]
     for k in case["order"]:
         for f in readers[k].read(case["chunks"][k][idx[k]]):
-            got[k].append(hdlc_mon.triple(hdlc_mon.observe(f)))
+            if f is not hdlc_mon.POISON:
+                got[k].append(hdlc_mon.triple(hdlc_mon.observe(f)))
         idx[k] += 1
     for k in range(2):
         if got[k] != solo[k]:
